@@ -15,7 +15,12 @@ package PKGNAME
 // or its folded model equals MapStateRead(all) restricted to the keys its filters admit (keys, data, score on
 // ordered channels), its epoch is the stream's epoch and no admitted change lies beyond its position. For rejoin
 // requests answered recovered=true the delivered publications must be exactly the admitted changes in
-// (saved offset, reply offset] according to the log of broker deliveries.
+// (saved offset, reply offset] according to the log of broker deliveries. A stream pagination that stops making progress
+// (empty page, unchanged offset, three times in a row) is a livelock: never live, never told.
+//
+// Debugging aids (unset in normal runs): VF_C22_PROBE=expiry|zero|zero2 replaces the generated case by a minimal
+// reproducer of the known findings; VF_C22_FAIL_REFUSED=1 turns "client not live at the end" into a failure so that
+// the trace of such a case can be inspected.
 
 import (
 	"context"
